@@ -186,6 +186,18 @@ def run_scenario(hist, sc, tzname, real_tm, stats):
     for col, src in (("results_dem", "dem"), ("results_gop", "gop"), ("results_turnout", "total")):
         if col not in df.columns or df[col].tolist() != df[src].tolist():
             out.append(("derived_columns", f"{col} is not a copy of {src}", flags))
+    if sc["fail"] and not out:
+        # faults stop; the SAME retrieval object is asked again: everything sampled must come back now
+        bucket.failing_versions = set()
+        try:
+            df2 = util.get(KEY, sample=sc["sample"])
+            want2 = [r["marker"] for v in sampled for r in by_vid[v]["rows"]]
+            if df2 is None or df2["marker"].tolist() != want2:
+                out.append(("state_after_failed_downloads", f"after the failing downloads stopped failing, a second get() on the same object returned versions "
+                                                            f"{sorted(set(m // 10 for m in (df2['marker'].tolist() if df2 is not None else [])))} instead of {sorted(set(m // 10 for m in want2))}", flags))
+            stats.probes["second_get_after_faults_stopped"] += 1
+        except Exception as e:  # noqa: BLE001
+            out.append(("state_after_failed_downloads", f"second get() on the same object raised {type(e).__name__}: {e}", flags))
     return out, pages
 
 
